@@ -91,7 +91,7 @@ fn main() {
         Some("c04-ro") => props_c04::replay_ro(case),
         Some("c04-shrunk") => props_c04::replay_shrunk(case),
         Some("c09") | Some("c09-ro") | Some("c05") | Some("c06") | Some("c06-unsync") | Some("c06-sched") => props_file::replay(case),
-        Some("c15") | Some("c16") | Some("c16-sbs") | Some("c17-clear") | Some("c18") | Some("c18-ro") | Some("c19") => props_grid::replay(case),
+        Some("c15") | Some("c16") | Some("c16-sbs") | Some("c17-clear") | Some("c17-resize") | Some("c18") | Some("c18-ro") | Some("c19") => props_grid::replay(case),
         _ => {
           eprintln!("machinery: unknown engine in replay file");
           2
